@@ -90,11 +90,8 @@ Fixpoint dset (k : string) (v : val) (d : dict) : dict :=
   | (k', v') :: d' => if String.eqb k k' then (k', v) :: d' else (k', v') :: dset k v d'
   end.
 
-Fixpoint ddel (k : string) (d : dict) : dict :=
-  match d with
-  | [] => []
-  | (k', v') :: d' => if String.eqb k k' then d' else (k', v') :: ddel k d'
-  end.
+(* del d[k] (a Python dict holds a key at most once) *)
+Definition ddel (k : string) (d : dict) : dict := filter (fun p => negb (String.eqb k (fst p))) d.
 
 Definition dpop (k : string) (d : dict) : option val * dict := (dget k d, ddel k d).
 
@@ -525,17 +522,20 @@ Definition pop_datum (datum_id : val) : M (option val) :=
 
 Definition h_start (doc : val) : M unit := d <- shallow doc ;; emit "start" d.
 
+(* one cached reference to external data, handled when the run stops *)
+Definition stop_item (r : val * string * val * val) : M unit :=
+  let '(datum_id, data_key, desc_uid, seq_num) := r in
+  od <- pop_datum datum_id ;;
+  match od with
+  | Some dd => if truthy dd then (c <- convert_datum dd data_key desc_uid seq_num ;; emit_converted c)
+               else fail RuntimeError
+  | None => fail RuntimeError
+  end.
+
 Definition h_stop (doc : val) : M unit :=
   d <- shallow doc ;;
   n <- get_ns ;;
-  forM (ext_refs n) (fun r =>
-    let '(datum_id, data_key, desc_uid, seq_num) := r in
-    od <- pop_datum datum_id ;;
-    match od with
-    | Some dd => if truthy dd then (c <- convert_datum dd data_key desc_uid seq_num ;; emit_converted c)
-                 else fail RuntimeError
-    | None => fail RuntimeError
-    end) ;;;
+  forM (ext_refs n) stop_item ;;;
   emit "stop" d.
 
 (* --- descriptor (works on the private deep copy: no store access after the copy) *)
@@ -716,24 +716,26 @@ Definition event_split (i e : list string) (d : dict) : E (dict * list (string *
   inl (ev, ext, match dget "descriptor" d with Some x => x | None => VNone end,
        match dget "seq_num" d with Some x => x | None => VNone end).
 
+(* one external reference of an Event ([d] is the Event, for the KeyError on doc["descriptor"] / doc["seq_num"]) *)
+Definition ext_item (d : dict) (desc_uid seq_num : val) (kv : string * val) : M unit :=
+  let '(data_key, datum_id) := kv in
+  od <- pop_datum datum_id ;;
+  (if dhas "descriptor" d && dhas "seq_num" d then ret tt else fail KeyError) ;;;
+  match od with
+  | Some dd =>
+      if truthy dd then c <- convert_datum dd data_key desc_uid seq_num ;; emit_converted c
+      else n <- get_ns ;; put_ns (with_ext_refs n (ext_refs n ++ [(datum_id, data_key, desc_uid, seq_num)]))
+  | None =>
+      n <- get_ns ;; put_ns (with_ext_refs n (ext_refs n ++ [(datum_id, data_key, desc_uid, seq_num)]))
+  end.
+
 Definition h_event_tree (c : val) : M unit :=
   d <- lift (as_dict c) ;;
   n <- get_ns ;;
   sp <- lift (event_split (int_keys n) (ext_keys n) d) ;;
   let '(ev, ext, desc_uid, seq_num) := sp in
   emit "event" (VDict ev) ;;;
-  forM ext (fun kv =>
-    let '(data_key, datum_id) := kv in
-    (* doc["descriptor"] / doc["seq_num"] are evaluated when first needed *)
-    od <- pop_datum datum_id ;;
-    (if dhas "descriptor" d && dhas "seq_num" d then ret tt else fail KeyError) ;;;
-    match od with
-    | Some dd =>
-        if truthy dd then c <- convert_datum dd data_key desc_uid seq_num ;; emit_converted c
-        else n <- get_ns ;; put_ns (with_ext_refs n (ext_refs n ++ [(datum_id, data_key, desc_uid, seq_num)]))
-    | None =>
-        n <- get_ns ;; put_ns (with_ext_refs n (ext_refs n ++ [(datum_id, data_key, desc_uid, seq_num)]))
-    end).
+  forM ext (ext_item d desc_uid seq_num).
 
 Definition h_event (doc : val) : M unit := c <- deepcopy doc ;; h_event_tree c.
 
@@ -933,6 +935,83 @@ Definition agrees (r : result) (o_out : list (string * val)) (o_errs : list (nat
   out_sim (r_out r) o_out && errs_eqb (r_errs r) o_errs && after_sim (r_after r) o_after
   && set_eq_str (r_int r) o_int && set_eq_str (r_ext r) o_ext
   && atoms_eqb (r_pending r) o_pending && Nat.eqb (r_refs r) o_refs.
+
+(* ------------------------------------------------------------------ finding class C35-b *)
+
+(* ids of the frame-carrying datums carried by a document *)
+Fixpoint zip_framed (ids fs : list val) : list val :=
+  match ids, fs with
+  | id :: ids', f :: fs' => (match f with VNone => [] | _ => [id] end) ++ zip_framed ids' fs'
+  | _, _ => []
+  end.
+
+Definition frame_ids (name : string) (d : val) : list val :=
+  match d with
+  | VDict kv =>
+      if String.eqb name "datum" then
+        match dget "datum_kwargs" kv, dget "datum_id" kv with
+        | Some (VDict kw), Some id =>
+            match dget "frame" kw with Some VNone | None => [] | Some _ => [id] end
+        | _, _ => []
+        end
+      else if String.eqb name "datum_page" then
+        match dget "datum_kwargs" kv, dget "datum_id" kv with
+        | Some (VDict kw), Some (VList ids) =>
+            match dget "frame" kw with Some (VList fs) => zip_framed ids fs | _ => [] end
+        | _, _ => []
+        end
+      else []
+  | _ => []
+  end.
+
+(* the values found in the data of an event / event_page *)
+Definition data_values (name : string) (d : val) : list val :=
+  match d with
+  | VDict kv =>
+      match dget "data" kv with
+      | Some (VDict data) =>
+          if String.eqb name "event" then map snd data
+          else if String.eqb name "event_page" then
+            flat_map (fun p => match snd p with VList l => l | _ => [] end) data
+          else []
+      | _ => []
+      end
+  | _ => []
+  end.
+
+Fixpoint finding_b_from (seen : list val) (docs : list (string * val)) : bool :=
+  match docs with
+  | [] => false
+  | (n, d) :: r =>
+      existsb (fun id => existsb (atom_eqb id) seen) (frame_ids n d)
+      || finding_b_from (seen ++ data_values n d) r
+  end.
+
+(* C35-b: a Datum carrying a "frame" entry arrives after an Event that refers to it *)
+Definition finding_C35_b (docs : list (string * val)) : bool := finding_b_from [] docs.
+
+(* the (indices, seq_nums) of the emitted StreamDatum with a given uid *)
+Definition zrange (v : option val) : option (Z * Z) :=
+  match v with
+  | Some (VDict r) => match dget "start" r, dget "stop" r with
+                      | Some (VInt a), Some (VInt b) => Some (a, b)
+                      | _, _ => None
+                      end
+  | _ => None
+  end.
+
+Fixpoint sdat_ranges (uid : val) (o : list (string * val)) : option ((Z * Z) * (Z * Z)) :=
+  match o with
+  | [] => None
+  | (n, VDict kv) :: o' =>
+      if String.eqb n "stream_datum" && (match dget "uid" kv with Some u => atom_eqb u uid | None => false end)
+      then match zrange (dget "indices" kv), zrange (dget "seq_nums" kv) with
+           | Some i, Some q => Some (i, q)
+           | _, _ => None
+           end
+      else sdat_ranges uid o'
+  | _ :: o' => sdat_ranges uid o'
+  end.
 
 (* ------------------------------------------------------------------ _ConditionalBackup *)
 
